@@ -123,7 +123,7 @@ type seatRun struct {
 	justArmed         bool
 	resetSeen         bool // Reset() re-creates the seat objects and leaves the position accessors on the old ones: no claim after it
 	diverged          bool // replay only: a "join any seat" picked another seat than in the recorded run
-	lostDealer        int // dealer seat a restore failed to bring back (-1: none)
+	lostDealer        int  // dealer seat a restore failed to bring back (-1: none)
 	kept              *seatCheckpoint
 	touched           []int  // seats touched by join/leave/reserve/sit-in since positions were assigned
 	closedAfterAssign []bool // seats the last assignment left inactive
@@ -248,7 +248,7 @@ func (s *seatRun) apply(op SeatOp) {
 					s.kept = &seatCheckpoint{doc: k, joined: s.joined, pid: s.pid,
 						empty: append([]bool{}, s.emptyAtAssign...), closed: append([]bool{}, s.closedAfterAssign...),
 						touched: append(append([]int{}, s.touched...), -1),
-						views: viewSeats(m), d: k.Dealer, s: k.SB, b: k.BB}
+						views:   viewSeats(m), d: k.Dealer, s: k.SB, b: k.BB}
 				}
 			}
 		case 'Y':
